@@ -26,6 +26,7 @@ type PropSpec struct {
 	Stubs       []string      `json:"stubs"`
 	Bounds      string        `json:"bounds"`
 	Kind        string        `json:"kind"`
+	UseRef      bool          `json:"use_reference"`
 }
 
 type KnownFinding struct {
@@ -161,6 +162,7 @@ func cmdCheck(args []string) int {
 		fmt.Println("ERROR: property not in registry:", prop)
 		return 2
 	}
+	useRef = ps.UseRef
 	if ps.Kind == "protocol" {
 		return runProto(prop, tier, seed)
 	}
